@@ -22,7 +22,12 @@ func c22literal(maxInt, maxFrac, maxExp int) (lit []byte, neg bool, mant uint64,
 	hasExp := nd.Bool()
 	e := 0
 	if hasExp {
-		e = nd.Int(-maxExp, maxExp)
+		if maxExp == 0 {
+			// quick tier: the exponents around zero and around the 64-bit decimal limit
+			e = []int{-3, -2, -1, 0, 1, 2, 3, 17, 18, 19, 20, 21, 22}[nd.Int(0, 12)]
+		} else {
+			e = nd.Int(-maxExp, maxExp)
+		}
 	}
 	d := nd.BytesN(ni + nf)
 	for i := range d {
@@ -129,58 +134,67 @@ func c22check(maxInt, maxFrac, maxExp int) {
 // H_C22_int: integer fields decode JSON number literals exactly whatever their notation
 // (plain, fraction, exponent) and reject non-integral or out-of-range values.
 //
-//verif:props=C22 bounds=sign;<=2-integer-digits;<=2-fraction-digits;exponent-in--21..21(quick);<=5-int/3-frac/exp--25..25(thorough);all-digits-symbolic solver=cvc5-int timeout=30000 maxsteps=4000000
+//verif:props=C22 bounds=sign;<=2-integer-digits;<=2-fraction-digits;exponent-in{-3..3,17..22}(quick);<=5-int/3-frac/exp--25..25(thorough);all-digits-symbolic solver=cvc5-int timeout=30000 maxsteps=4000000 deadline=1500
 func H_C22_int() {
 	if nd.Thorough() {
 		c22check(5, 3, 25)
 	} else {
-		c22check(2, 2, 21)
+		c22check(2, 2, 0)
 	}
 }
 
-// H_C22_int_long: long plain integers around the 64-bit limits (18..20 digits, no exponent).
+// H_C22_int_limits: 19/20-digit plain integers around the 64-bit limits: a concrete 16/17-digit
+// prefix (of 2^63 = 9223372036854775808 or 2^64 = 18446744073709551616) followed by three
+// symbolic digits, with and without a minus sign.
 //
-//verif:props=C22 bounds=sign;18..20-symbolic-digits;no-fraction;no-exponent solver=cvc5-int timeout=30000 maxsteps=4000000
-func H_C22_int_long() {
+//verif:props=C22 bounds=sign;prefix-of-2^63-or-2^64+3-symbolic-digits solver=z3 timeout=30000 maxsteps=4000000
+func H_C22_int_limits() {
 	neg := nd.Bool()
-	n := nd.Int(18, 20)
-	d := nd.BytesN(n)
+	prefix := "9223372036854775"
+	if nd.Bool() {
+		prefix = "18446744073709551"
+	}
+	d := nd.BytesN(3)
 	for i := range d {
 		nd.Assume('0' <= d[i] && d[i] <= '9')
 	}
-	nd.Assume(d[0] != '0')
 	var lit []byte
 	if neg {
 		lit = append(lit, '-')
 	}
+	lit = append(lit, prefix...)
 	lit = append(lit, d...)
-	// exact value with overflow detection
-	var v uint64
-	fits := true
-	for i := range d {
-		hi, lo := bits.Mul64(v, 10)
-		s, c := bits.Add64(lo, uint64(d[i]-'0'), 0)
-		f := hi == 0 && c == 0
-		fits = fits && f
-		v = s
-	}
+	tail := uint64(d[0]-'0')*100 + uint64(d[1]-'0')*10 + uint64(d[2]-'0')
 	tok := Token{kind: Number, raw: lit}
 	nd.Reach("literal")
 	i64, ok64 := tok.Int(64)
-	want64 := fits && ((!neg && v <= 1<<63-1) || (neg && v <= 1<<63))
-	nd.Assert(ok64 == want64, "int64 accepts exactly the representable integers")
-	if ok64 && want64 {
-		nd.Reach("int64 accepted")
-		if neg {
-			nd.Assert(uint64(i64) == -v, "int64 value (negative)")
-		} else {
-			nd.Assert(uint64(i64) == v, "int64 value")
-		}
-	}
 	u64, oku := tok.Uint(64)
-	nd.Assert(oku == (fits && !neg), "uint64 accepts exactly the representable integers")
-	if oku && fits && !neg {
-		nd.Reach("uint64 accepted")
-		nd.Assert(u64 == v, "uint64 value")
+	if len(prefix) == 16 {
+		// value = 9223372036854775000 + tail; int64 max = ...807, min = -...808
+		v := uint64(9223372036854775000) + tail
+		want64 := (!neg && tail <= 807) || (neg && tail <= 808)
+		nd.Assert(ok64 == want64, "int64 accepts exactly the representable integers")
+		if ok64 && want64 {
+			nd.Reach("int64 accepted")
+			if neg {
+				nd.Assert(uint64(i64) == -v, "int64 value (negative)")
+			} else {
+				nd.Assert(uint64(i64) == v, "int64 value")
+			}
+		}
+		nd.Assert(oku == !neg, "uint64 accepts exactly the representable integers")
+		if oku && !neg {
+			nd.Reach("uint64 accepted")
+			nd.Assert(u64 == v, "uint64 value")
+		}
+	} else {
+		// value = 18446744073709551000 + tail; uint64 max = ...615
+		nd.Assert(!ok64, "int64 rejects 20-digit values")
+		wantu := !neg && tail <= 615
+		nd.Assert(oku == wantu, "uint64 accepts exactly the representable integers")
+		if oku && wantu {
+			nd.Reach("uint64 accepted")
+			nd.Assert(u64 == uint64(18446744073709551000)+tail, "uint64 value")
+		}
 	}
 }
